@@ -804,7 +804,7 @@ fn judge_cli(c: &CliCase, cls: &mut Classifier) -> Verdict {
     let search_must_not_start = {
         let val = |name: &[u8]| args.windows(2).find(|w| w[0] == name).map(|w| String::from_utf8_lossy(&w[1]).into_owned());
         let has_prefix = val(b"--vanity-prefix").is_some();
-        let bad_path = val(b"--vanity-hd-path").map(|p| !super::c14::text_is_canonical_path(&p)).unwrap_or(false);
+        let bad_path = val(b"--vanity-hd-path").map(|p| super::c14::text_must_be_refused(&p)).unwrap_or(false);
         let bad_index = val(b"--vanity-account-index").map(|i| i.parse::<u64>().map(|v| v >= 1 << 31).unwrap_or(true)).unwrap_or(false);
         has_prefix && (bad_path || bad_index)
     };
